@@ -415,9 +415,130 @@ def r4_files(ctx, res):
         raise AnalysisError(f'only {n} open() calls found on the add route')
 
 
+def _loop_carried(func, lp):
+    """names that are assigned somewhere in the body of loop `lp` but can be read in an iteration before being assigned
+    in that same iteration (definite-assignment analysis over the body): their value leaks from the previous item."""
+    stores = {x.id for st in lp.body for x in ast.walk(st) if isinstance(x, ast.Name) and isinstance(x.ctx, ast.Store)}
+    stores -= {x.id for x in ast.walk(lp.target) if isinstance(x, ast.Name)}
+    # comprehension variables live in their own scope
+    comp_names = {t.id for st in lp.body for c in ast.walk(st) if isinstance(c, ast.comprehension)
+                  for t in ast.walk(c.target) if isinstance(t, ast.Name)}
+    plain = set()
+    for st in lp.body:
+        for x in ast.walk(st):
+            if isinstance(x, (ast.Assign, ast.AnnAssign, ast.AugAssign, ast.For, ast.With, ast.NamedExpr)):
+                tg = x.targets if isinstance(x, ast.Assign) else ([x.target] if hasattr(x, 'target') else
+                                                               [i.optional_vars for i in x.items if i.optional_vars is not None])
+                for t in tg:
+                    plain |= {y.id for y in ast.walk(t) if isinstance(y, ast.Name) and isinstance(y.ctx, ast.Store)}
+    stores = (stores & plain) | (stores - comp_names)
+    stores &= plain
+    carried = set()
+    LEAVES = (ast.Continue, ast.Return, ast.Raise, ast.Break)
+
+    def reads(e, defined):
+        if isinstance(e, (ast.ListComp, ast.SetComp, ast.GeneratorExp, ast.DictComp)):
+            own = {t.id for g in e.generators for t in ast.walk(g.target) if isinstance(t, ast.Name)}
+            for x in ast.walk(e):
+                if isinstance(x, ast.Name) and isinstance(x.ctx, ast.Load) and x.id in stores and x.id not in defined and x.id not in own:
+                    carried.add(x.id)
+            return
+        for x in ast.walk(e):
+            if isinstance(x, ast.Name) and isinstance(x.ctx, ast.Load) and x.id in stores and x.id not in defined:
+                carried.add(x.id)
+
+    def block(stmts, defined):
+        """returns the set definitely assigned at the end, or None if the block always leaves the iteration"""
+        defined = set(defined)
+        for st in stmts:
+            if isinstance(st, (ast.Assign, ast.AnnAssign, ast.AugAssign)):
+                if getattr(st, 'value', None) is not None:
+                    reads(st.value, defined)
+                tg = st.targets if isinstance(st, ast.Assign) else [st.target]
+                if isinstance(st, ast.AugAssign):
+                    reads(st.target, defined)
+                for t in tg:
+                    if isinstance(t, ast.Name):
+                        if not isinstance(st, ast.AnnAssign) or st.value is not None:
+                            defined.add(t.id)
+                    else:
+                        for x in ast.walk(t):
+                            if isinstance(x, ast.Name) and isinstance(x.ctx, ast.Store):
+                                defined.add(x.id)
+                            elif isinstance(x, ast.Name):
+                                reads(x, defined)
+            elif isinstance(st, ast.If):
+                reads(st.test, defined)
+                a = block(st.body, defined)
+                b = block(st.orelse, defined)
+                if a is None and b is None:
+                    return None
+                defined = (a if b is None else b if a is None else a & b)
+            elif isinstance(st, (ast.For, ast.AsyncFor)):
+                reads(st.iter, defined)
+                inner = set(defined) | {x.id for x in ast.walk(st.target) if isinstance(x, ast.Name)}
+                block(st.body, inner)
+            elif isinstance(st, ast.While):
+                reads(st.test, defined)
+                block(st.body, defined)
+            elif isinstance(st, (ast.With, ast.AsyncWith)):
+                for it in st.items:
+                    reads(it.context_expr, defined)
+                    if it.optional_vars is not None:
+                        defined |= {x.id for x in ast.walk(it.optional_vars) if isinstance(x, ast.Name)}
+                r = block(st.body, defined)
+                if r is None:
+                    return None
+                defined = r
+            elif isinstance(st, ast.Try):
+                r = block(st.body, defined)
+                for h in st.handlers:
+                    block(h.body, defined)
+                if r is not None:
+                    defined = r & defined | (r if not st.handlers else defined)
+                block(st.finalbody, defined)
+            elif isinstance(st, LEAVES):
+                for c in ast.iter_child_nodes(st):
+                    if isinstance(c, ast.expr):
+                        reads(c, defined)
+                return None
+            else:
+                for c in ast.iter_child_nodes(st):
+                    if isinstance(c, ast.expr):
+                        reads(c, defined)
+        return defined
+    block(lp.body, set())
+    return sorted(carried)
+
+
+def r5_per_item_state(ctx, res):
+    """the skip decision of one lexicon depends on that lexicon only: no variable read in the per-item loops of _precheck /
+    _add_lexical_resource keeps a conditionally assigned value from the previous item."""
+    n = 0
+    for fname in ('_precheck', '_add_lexical_resource'):
+        f = ctx.repo.func('_add', fname)
+        for lp in walk_no_nested(f.node):
+            if not isinstance(lp, ast.For):
+                continue
+            if any(isinstance(p, ast.For) for p in parents(lp) if p is not f.node):
+                continue
+            n += 1
+            key = f'per-item-state:{f.key}:for {norm(lp.target)}'
+            names = _loop_carried(f, lp)
+            res.inst(key, f.module.loc(lp), f'carried: {names}')
+            for nm in names:
+                res.find(f'{key}:{nm}', f.module.loc(lp),
+                         f'in the loop over `{norm(lp.iter)[:40]}` of {f.qualname} the variable `{nm}` is only assigned under a condition but '
+                         f'read in every iteration: an item for which the condition is false inherits the value of the previous item '
+                         f'(e.g. an ordinary lexicon is treated as an extension of the preceding extension\'s base and skipped)')
+    if n < 2:
+        raise AnalysisError('anchor vanished: per-item loops of _precheck / _add_lexical_resource')
+
+
 RULES = [
     ('C07-R1', r1_sibling_entry_points, 5),
     ('C07-R2', r2_skip_dominance, 2),
     ('C07-R3', r3_input_not_modified, 40),
     ('C07-R4', r4_files, 8),
+    ('C07-R5', r5_per_item_state, 2),
 ]
